@@ -1,16 +1,29 @@
 ------------------------------- MODULE MC_C20 -------------------------------
 (***************************************************************************)
-(* Bounded instance of Autodiscover: one root of every variant (how the    *)
-(* component directory is configured), every requested suffix, and every   *)
-(* tree of at most MaxEntries entries over the pools below (trees of more  *)
-(* than one entry are taken from SmallCodes only).  Every state is         *)
-(* exported with the expected result of get_component_files (spec -> code  *)
-(* replay) and which of the selected files Python must be able to import   *)
-(* under their dotted path.                                                *)
+(* Bounded instance of Autodiscover, two families of states:               *)
+(*                                                                         *)
+(* mode "tree": one root of every variant (how the component directory is  *)
+(*   configured), every requested suffix, and every tree of at most        *)
+(*   MaxEntries entries over the pools below (trees of more than one entry *)
+(*   are taken from SmallCodes only).                                      *)
+(* mode "cfg": WHICH directories are searched.  Nine candidate directories *)
+(*   (five project directories incl. BASE_DIR/components, four app         *)
+(*   directories) all exist with the same small tree; the state chooses    *)
+(*   COMPONENTS.dirs (not given / given empty / given with one or more of  *)
+(*   the candidates in str, Path and tuple form), STATICFILES_DIRS (empty /*)
+(*   one / several candidates, plain and (prefix, path) form, also one     *)
+(*   that dirs lists too and the default directory itself), app_dirs (not  *)
+(*   given / empty / one / two names) and how COMPONENTS itself is written *)
+(*   (dict, dict with None for what is not given, ComponentsSettings).     *)
+(*                                                                         *)
+(* Every state is exported with the expected result of get_component_files *)
+(* (spec -> code replay) and which of the selected files Python must be    *)
+(* able to import under their dotted path.                                 *)
 (***************************************************************************)
 EXTENDS Autodiscover, TLC, Json, IOUtils
 
-CONSTANTS VarIdx, SfxIdx, Codes, SmallCodes, MaxEntries
+CONSTANTS VarIdx, SfxIdx, Codes, SmallCodes, MaxEntries,
+          CfgSfxIdx        \* suffixes of the "cfg" family ({} switches it off)
 
 DirPool == << <<>>, <<"pkg">>, <<"pkg", "sub">>, <<"_priv">>, <<".hid">>, <<"pkg", "_in">>, <<"pkg", ".h">>,
               <<"d.ot">>, <<"__pycache__">>, <<"a-b", "c">>, <<"p_q">> >>
@@ -20,69 +33,151 @@ FileNames == << "a.py", "_b.py", "__init__.py", ".h.py", "m.py", "a.b.py", "x.js
 DirNames == << "e.py", "plain", "_e.py", ".e.py", "e.js" >>
 Suffixes == << ".py", "", ".js", ".pyx" >>
 
-\* how the root is configured; the harness materialises it from (id, kind, prefix)
+M(w, f) == [in |-> w, form |-> f]
+Cfg(d, a, names) == [dirs |-> d, appdirs |-> a, appnames |-> names, form |-> "dict"]
+\* how the root is configured; the harness materialises it from (kind, prefix, src) and cfg
 Variants == <<
-  [id |-> "dirs-str",      kind |-> "dirs", prefix |-> <<"comps">>,            globmeta |-> FALSE],
-  [id |-> "dirs-path",     kind |-> "dirs", prefix |-> <<"outer", "comps">>,   globmeta |-> FALSE],
-  [id |-> "static",        kind |-> "dirs", prefix |-> <<"assets">>,           globmeta |-> FALSE],
-  [id |-> "static-tuple",  kind |-> "dirs", prefix |-> <<"assets">>,           globmeta |-> FALSE],
-  [id |-> "default",       kind |-> "dirs", prefix |-> <<"components">>,       globmeta |-> FALSE],
-  [id |-> "app",           kind |-> "app",  prefix |-> <<"genapp", "components">>,  globmeta |-> FALSE],
-  [id |-> "app-nested-ui", kind |-> "app",  prefix |-> <<"pk", "napp", "ui">>,      globmeta |-> FALSE],
-  [id |-> "app-outside",   kind |-> "app",  prefix |-> <<"extapp", "components">>,  globmeta |-> FALSE],
-  [id |-> "dirs-bracket",  kind |-> "dirs", prefix |-> <<"comps">>,            globmeta |-> TRUE] >>
+  [id |-> "dirs-str",      kind |-> "dirs", prefix |-> <<"comps">>,            globmeta |-> FALSE,
+   src |-> <<M("dirs", "str")>>,      cfg |-> Cfg("set", "unset", <<>>)],
+  [id |-> "dirs-path",     kind |-> "dirs", prefix |-> <<"outer", "comps">>,   globmeta |-> FALSE,
+   src |-> <<M("dirs", "path")>>,     cfg |-> Cfg("set", "set", <<>>)],
+  [id |-> "static",        kind |-> "dirs", prefix |-> <<"assets">>,           globmeta |-> FALSE,
+   src |-> <<M("static", "str")>>,    cfg |-> Cfg("unset", "unset", <<>>)],
+  [id |-> "static-tuple",  kind |-> "dirs", prefix |-> <<"assets">>,           globmeta |-> FALSE,
+   src |-> <<M("static", "tuple-path")>>, cfg |-> Cfg("unset", "set", <<"components">>)],
+  [id |-> "default",       kind |-> "dirs", prefix |-> <<"components">>,       globmeta |-> FALSE,
+   src |-> <<M("default", "")>>,      cfg |-> Cfg("unset", "unset", <<>>)],
+  [id |-> "app",           kind |-> "app",  prefix |-> <<"genapp", "components">>,  globmeta |-> FALSE,
+   src |-> <<>>,                      cfg |-> Cfg("set", "unset", <<>>)],
+  [id |-> "app-nested-ui", kind |-> "app",  prefix |-> <<"pk", "napp", "ui">>,      globmeta |-> FALSE,
+   src |-> <<>>,                      cfg |-> Cfg("set", "set", <<"ui">>)],
+  [id |-> "app-outside",   kind |-> "app",  prefix |-> <<"extapp", "components">>,  globmeta |-> FALSE,
+   src |-> <<>>,                      cfg |-> Cfg("set", "set", <<"components">>)],
+  [id |-> "dirs-bracket",  kind |-> "dirs", prefix |-> <<"comps">>,            globmeta |-> TRUE,
+   src |-> <<M("dirs", "str")>>,      cfg |-> Cfg("set", "unset", <<>>)] >>
 
 \* entry codes: kind*10000 + dir*100 + name
 Decode(c) == LET d == (c % 10000) \div 100
                  n == c % 100 IN
              IF c >= 10000 THEN Dir(DirPool[d] \o <<DirNames[n]>>) ELSE File(DirPool[d] \o <<FileNames[n]>>)
 
-VARIABLES vid, sid, codes
-mcVars == <<vid, sid, codes>>
-Root == Variants[vid]
+(* ---- the "cfg" family -------------------------------------------------- *)
+Cands == <<
+  [id |-> "c1", kind |-> "dirs", prefix |-> <<"comps">>,                globmeta |-> FALSE],
+  [id |-> "c2", kind |-> "dirs", prefix |-> <<"outer", "comps">>,       globmeta |-> FALSE],
+  [id |-> "c3", kind |-> "dirs", prefix |-> <<"assets">>,               globmeta |-> FALSE],
+  [id |-> "c4", kind |-> "dirs", prefix |-> <<"lib", "more">>,          globmeta |-> FALSE],
+  [id |-> "c5", kind |-> "dirs", prefix |-> <<"components">>,           globmeta |-> FALSE],
+  [id |-> "c6", kind |-> "app",  prefix |-> <<"genapp", "components">>, globmeta |-> FALSE],
+  [id |-> "c7", kind |-> "app",  prefix |-> <<"pk", "napp", "ui">>,     globmeta |-> FALSE],
+  [id |-> "c8", kind |-> "app",  prefix |-> <<"extapp", "components">>, globmeta |-> FALSE],
+  [id |-> "c9", kind |-> "app",  prefix |-> <<"genapp", "ui">>,         globmeta |-> FALSE] >>
+DefaultCand == 5
+L(c, f) == [c |-> c, form |-> f]
+\* COMPONENTS.dirs: not given, or the list of candidates given
+DirsChoices == <<
+  [given |-> FALSE, list |-> <<>>],
+  [given |-> TRUE,  list |-> <<>>],
+  [given |-> TRUE,  list |-> <<L(1, "str")>>],
+  [given |-> TRUE,  list |-> <<L(1, "path"), L(2, "tuple")>>],
+  [given |-> TRUE,  list |-> <<L(3, "str")>>],
+  [given |-> TRUE,  list |-> <<L(5, "path")>> ] >>
+StaticChoices == <<
+  <<>>,
+  <<L(3, "str")>>,
+  <<L(3, "tuple")>>,
+  <<L(3, "path"), L(4, "tuple-path")>>,
+  <<L(5, "str")>> >>
+AppChoices == <<
+  [given |-> FALSE, names |-> <<>>],
+  [given |-> TRUE,  names |-> <<>>],
+  [given |-> TRUE,  names |-> <<"components">>],
+  [given |-> TRUE,  names |-> <<"ui">>],
+  [given |-> TRUE,  names |-> <<"ui", "components">>] >>
+Forms == <<"dict", "dict-none", "object">>
+CfgTree == {File(<<"a.py">>), File(<<"pkg", "__init__.py">>), File(<<"pkg", "m.py">>), File(<<"_p.py">>),
+            File(<<"x.js">>), File(<<"pkg", "_in", "z.py">>)}
+NoScn == [d |-> 0, s |-> 0, a |-> 0, f |-> 0]
+Scns == [d : DOMAIN DirsChoices, s : DOMAIN StaticChoices, a : DOMAIN AppChoices, f : DOMAIN Forms]
+
+Mentions(list, w, c) == LET idx == {i \in DOMAIN list : list[i].c = c} IN
+                        IF idx = {} THEN <<>> ELSE <<M(w, list[CHOOSE i \in idx : TRUE].form)>>
+ScnRoots(x) == [c \in DOMAIN Cands |->
+  [id |-> Cands[c].id, kind |-> Cands[c].kind, prefix |-> Cands[c].prefix, globmeta |-> FALSE,
+   src |-> IF Cands[c].kind = "app" THEN <<>>
+           ELSE Mentions(DirsChoices[x.d].list, "dirs", c) \o Mentions(StaticChoices[x.s], "static", c)
+                \o (IF c = DefaultCand THEN <<M("default", "")>> ELSE <<>>)]]
+ScnCfg(x) == [dirs |-> IF DirsChoices[x.d].given THEN "set" ELSE "unset",
+              appdirs |-> IF AppChoices[x.a].given THEN "set" ELSE "unset",
+              appnames |-> AppChoices[x.a].names, form |-> Forms[x.f]]
+
+VARIABLES vid, sid, codes, scn
+mcVars == <<vid, sid, codes, scn>>
+IsCfg == scn # NoScn
 Sfx == Suffixes[sid]
 Tree == {Decode(c) : c \in codes}
+Root == [k \in {"id", "kind", "prefix", "globmeta", "src"} |-> Variants[vid][k]]
+TheRoots == IF IsCfg THEN ScnRoots(scn) ELSE <<Root>>
+TheTrees == IF IsCfg THEN [c \in DOMAIN Cands |-> CfgTree] ELSE <<Tree>>
+TheCfg == IF IsCfg THEN ScnCfg(scn) ELSE Variants[vid].cfg
 
-MCInit == vid \in VarIdx /\ sid \in SfxIdx /\ codes = {}
-Add(c) == /\ c \notin codes /\ Cardinality(codes) < MaxEntries
+MCInit == \/ vid \in VarIdx /\ sid \in SfxIdx /\ codes = {} /\ scn = NoScn
+          \/ vid = 0 /\ sid \in CfgSfxIdx /\ codes = {} /\ scn \in Scns
+Add(c) == /\ ~IsCfg
+          /\ c \notin codes /\ Cardinality(codes) < MaxEntries
           /\ codes = {} \/ (c \in SmallCodes /\ codes \subseteq SmallCodes)
-          /\ codes' = codes \cup {c} /\ UNCHANGED <<vid, sid>>
+          /\ codes' = codes \cup {c} /\ UNCHANGED <<vid, sid, scn>>
 MCNext == \E c \in Codes : Add(c)
 MCSpec == MCInit /\ [][MCNext]_mcVars
 
 \* a file and a directory cannot have the same path; no entry lies "inside" a file
-WellFormed == \A a, b \in Tree : a # b => /\ a.parts # b.parts
-                                          /\ ~(a.kind = "file" /\ IsPrefix(a.parts, b.parts))
-Exp == Expected(<<Root>>, <<Tree>>, Sfx)
-DevExp == DevExpected(<<Root>>, <<Tree>>, Sfx)
+WellFormed == /\ \A k \in DOMAIN TheTrees : \A a, b \in TheTrees[k] :
+                   a # b => /\ a.parts # b.parts
+                            /\ ~(a.kind = "file" /\ IsPrefix(a.parts, b.parts))
+              /\ CfgWellFormed(TheCfg, TheRoots)
+Exp == Expected(TheCfg, TheRoots, TheTrees, Sfx)
+DevExp == DevExpected(TheCfg, TheRoots, TheTrees, Sfx)
+Act == Active(TheCfg, TheRoots)
+SelectedIn(k, sfx) == {e \in TheTrees[k] : Selected(e, sfx)}
 
 (* ---- theorems ---------------------------------------------------------- *)
 Theorems ==
-  /\ \A r \in Exp : \E e \in Tree : e.kind = "file" /\ e.parts = r.parts            \* only files
-  /\ \A e \in Tree : Selected(e, Sfx) =>                                             \* nothing private or hidden
+  /\ \A r \in Exp : \E e \in TheTrees[r.k] : e.kind = "file" /\ e.parts = r.parts  \* only files
+  /\ \A k \in DOMAIN TheTrees : \A e \in TheTrees[k] : Selected(e, Sfx) =>         \* nothing private or hidden
        /\ \A i \in 1..Len(e.parts) : ~Hidden(e.parts[i])
        /\ \A i \in 1..(Len(e.parts) - 1) : ~Underscored(e.parts[i])
-  /\ \A e \in Tree : (e.kind = "file" /\ Name(e) = "__init__.py" /\ Sfx \in {".py", ""}
-                      /\ \A i \in 1..(Len(e.parts) - 1) : ~Hidden(e.parts[i]) /\ ~Underscored(e.parts[i]))
-                     => Selected(e, Sfx)
-  /\ Cardinality(Exp) = Cardinality({e \in Tree : Selected(e, Sfx)})                  \* each once
-  /\ \A e \in Tree : Loadable(Tree, e) => DotDetermined(e)
-  \* distinct loadable files have distinct dotted paths
-  /\ \A a, b \in Tree : (a # b /\ Loadable(Tree, a) /\ Loadable(Tree, b) /\ Selected(a, ".py") /\ Selected(b, ".py"))
-                        => DotPath(Root, a) # DotPath(Root, b)
+  /\ \A k \in DOMAIN TheTrees : \A e \in TheTrees[k] :
+       (e.kind = "file" /\ Name(e) = "__init__.py" /\ Sfx \in {".py", ""}
+        /\ \A i \in 1..(Len(e.parts) - 1) : ~Hidden(e.parts[i]) /\ ~Underscored(e.parts[i]))
+       => Selected(e, Sfx)
+  /\ Cardinality(Exp) = Cardinality(UNION {{<<k, e>> : e \in SelectedIn(k, Sfx)} : k \in Act})  \* each once
+  /\ \A k \in DOMAIN TheTrees : \A e \in TheTrees[k] : Loadable(TheTrees[k], e) => DotDetermined(e)
+  \* distinct loadable files (of searched roots) have distinct dotted paths
+  /\ \A j, k \in Act : \A a \in SelectedIn(j, ".py") : \A b \in SelectedIn(k, ".py") :
+       (<<j, a>> # <<k, b>> /\ Loadable(TheTrees[j], a) /\ Loadable(TheTrees[k], b))
+       => DotPath(TheRoots[j], a) # DotPath(TheRoots[k], b)
   \* the deviations only ever add directories or drop whole roots
-  /\ (Exp # DevExp) => DevKeysFor(<<Root>>, <<Tree>>, Sfx) # {}
+  /\ (Exp # DevExp) => DevKeysFor(TheCfg, TheRoots, TheTrees, Sfx) # {}
+  \* which directories are searched
+  /\ TheCfg.dirs = "set" => \A k \in Act : TheRoots[k].kind = "app" \/ In(TheRoots[k], "dirs")
+  /\ (TheCfg.dirs = "set" /\ ~\E k \in DOMAIN TheRoots : In(TheRoots[k], "dirs"))      \* dirs = [] : no project dir
+       => \A k \in Act : TheRoots[k].kind = "app"
+  /\ (TheCfg.appdirs = "set" /\ TheCfg.appnames = <<>>) => \A k \in Act : TheRoots[k].kind # "app"
+  /\ \A k \in DOMAIN TheRoots : (TheRoots[k].kind = "dirs" /\ TheRoots[k].src = <<>>) => k \notin Act
 
 Skip == ~WellFormed
 Export ==
   Skip \/
-  Serialize(ToJson([root |-> Root, sfx |-> Sfx, entries |-> Tree,
-                    exp |-> Exp, dev |-> DevExp, keys |-> DevKeysFor(<<Root>>, <<Tree>>, Sfx),
-                    load |-> {[parts |-> e.parts, dot |-> DotPath(Root, e)] :
-                                e \in {x \in Tree : Selected(x, ".py") /\ Loadable(Tree, x)}},
+  Serialize(ToJson([label |-> IF IsCfg THEN "cfg" ELSE Variants[vid].id,
+                    roots |-> TheRoots, cfg |-> TheCfg, sfx |-> Sfx, trees |-> TheTrees,
+                    active |-> Act,
+                    exp |-> Exp, dev |-> DevExp, keys |-> DevKeysFor(TheCfg, TheRoots, TheTrees, Sfx),
+                    load |-> UNION {{[k |-> k, parts |-> e.parts, dot |-> DotPath(TheRoots[k], e)] :
+                                       e \in {x \in SelectedIn(k, ".py") : Loadable(TheTrees[k], x)}} : k \in Act},
+                    expauto |-> Expected(TheCfg, TheRoots, TheTrees, ".py"),
                     \* autodiscover() can be called: every selected .py file is loadable and no deviation applies
-                    auto |-> /\ \A x \in Tree : Selected(x, ".py") => Loadable(Tree, x)
-                             /\ Expected(<<Root>>, <<Tree>>, ".py") = DevExpected(<<Root>>, <<Tree>>, ".py")]) \o "\n",
+                    auto |-> /\ \A k \in Act : \A x \in SelectedIn(k, ".py") : Loadable(TheTrees[k], x)
+                             /\ Expected(TheCfg, TheRoots, TheTrees, ".py") = DevExpected(TheCfg, TheRoots, TheTrees, ".py")]) \o "\n",
             IOEnv.OUT, [format |-> "TXT", charset |-> "UTF-8",
                         openOptions |-> <<"WRITE", "CREATE", "APPEND">>]).exitValue = 0
 =============================================================================
